@@ -259,6 +259,23 @@ func (x *NALL) UnmarshalJSON(b []byte) error {
 	return nil
 }
 
+// a small pointer-free Selfer whose custom form is a map with a NAMED key type: its CodecDecodeSelf re-enters the
+// Decoder on the general (reflection) map path while the enclosing value is being decoded
+type smKey string
+
+type SM struct{ X, Y int32 }
+
+func (s SM) CodecEncodeSelf(e *codec.Encoder) {
+	encCalls["selfer"]++
+	e.MustEncode(map[smKey]int32{"x": s.X, "y": s.Y + 7})
+}
+func (s *SM) CodecDecodeSelf(d *codec.Decoder) {
+	decCalls["selfer"]++
+	var m map[smKey]int32
+	d.MustDecode(&m)
+	s.X, s.Y = m["x"], m["y"]-7
+}
+
 // marshalers whose encoded form is EMPTY but not nil for the zero value (names end in 0: the sweep uses A = 0)
 type TE0 struct{ A int }
 
@@ -333,6 +350,7 @@ func xtypes() []xtype {
 		{"EALL", reflect.TypeOf(EALL{}), c("ext"), "eall"},
 		{"SV", reflect.TypeOf(SV{}), c("selfer"), ""},
 		{"SP", reflect.TypeOf(SP{}), c("selfer"), ""},
+		{"SM", reflect.TypeOf(SM{}), c("selfer"), ""},
 		{"SALL", reflect.TypeOf(SALL{}), c("selfer"), ""},
 		{"BV", reflect.TypeOf(BV{}), marsh(true, false, false), ""},
 		{"BP", reflect.TypeOf(BP{}), marsh(true, false, false), ""},
@@ -356,6 +374,20 @@ func xtypes() []xtype {
 
 func newHandle(format string, o vh.Opts) codec.Handle {
 	h := vh.NewHandle(format, o)
+	if tnb, _ := o["TimeNotBuiltin"].(bool); tnb {
+		switch x := h.(type) {
+		case *codec.CborHandle:
+			x.TimeNotBuiltin = true
+		case *codec.JsonHandle:
+			x.TimeNotBuiltin = true
+		case *codec.MsgpackHandle:
+			x.TimeNotBuiltin = true
+		case *codec.BincHandle:
+			x.TimeNotBuiltin = true
+		case *codec.SimpleHandle:
+			x.TimeNotBuiltin = true
+		}
+	}
 	reg := func(rt reflect.Type, tag uint64, b codec.BytesExt, i codec.InterfaceExt) {
 		var err error
 		switch x := h.(type) {
@@ -394,7 +426,9 @@ func newHandle(format string, o vh.Opts) codec.Handle {
 
 // ---- positions ----
 
-var positions = []string{"top", "ptr", "ptrptr", "field", "slice", "array", "mapval", "mapkey", "iface", "ifaceptr"}
+// mapvalfield / ifacefield: X is a FIELD (between two int64 neighbours) of a small struct that is a map value / held by
+// value in an interface{}: the struct is decoded in scratch space the hook of X must not disturb
+var positions = []string{"top", "ptr", "ptrptr", "field", "slice", "array", "mapval", "mapkey", "iface", "ifaceptr", "mapvalfield", "ifacefield"}
 
 // place builds the value holding x (x: addressable reflect.Value of type X set to sample a) at position p, and a
 // destination of the same shape for Decode (pointer to it is returned).
@@ -463,6 +497,29 @@ func place(p string, xt reflect.Type, a int) (src reflect.Value, dst reflect.Val
 		d := reflect.New(st)
 		d.Elem().Field(0).Set(reflect.New(xt).Elem()) // zero X inside the interface
 		return s, d
+	case "mapvalfield", "ifacefield":
+		in := reflect.StructOf([]reflect.StructField{{Name: "A", Type: reflect.TypeOf(int64(0))}, {Name: "F", Type: xt}, {Name: "B", Type: reflect.TypeOf(int64(0))}})
+		v := reflect.New(in).Elem()
+		v.Field(0).SetInt(1111)
+		v.Field(1).Set(x)
+		v.Field(2).SetInt(2222)
+		if p == "mapvalfield" {
+			mt := reflect.MapOf(reflect.TypeOf(""), in)
+			m := reflect.MakeMap(mt)
+			m.SetMapIndex(reflect.ValueOf("outer1"), v)
+			v2 := reflect.New(in).Elem()
+			v2.Field(0).SetInt(3333)
+			v2.Field(1).Set(mk(a + 1))
+			v2.Field(2).SetInt(4444)
+			m.SetMapIndex(reflect.ValueOf("outer2"), v2)
+			return m, reflect.New(mt)
+		}
+		st := reflect.StructOf([]reflect.StructField{{Name: "I", Type: ifaceT}})
+		s := reflect.New(st).Elem()
+		s.Field(0).Set(v)
+		d := reflect.New(st)
+		d.Elem().Field(0).Set(reflect.New(in).Elem())
+		return s, d
 	case "ifaceptr":
 		st := reflect.StructOf([]reflect.StructField{{Name: "I", Type: ifaceT}})
 		s := reflect.New(st).Elem()
@@ -498,7 +555,7 @@ func main() {
 	cases := flag.String("cases", "/verif/build/c17/cases", "directory for the model case files")
 	flag.Parse()
 	r := vh.NewRng(vh.SeedFromEnv())
-	sum := vh.NewSummary("23 types (Text / Binary marshalers whose form is empty-not-nil for the zero value, named scalar-kind types with Text / Binary / Selfer / all pairs, BytesExt/InterfaceExt, SelfExt, ext+Selfer, Selfer value/pointer receiver, Selfer+marshalers, Binary/Text/JSON marshaler pairs with value and pointer receivers, all three pairs, marshal-only, unmarshal-only, time.Time) x 10 positions x root by value / by pointer x 5 formats x option vectors (Canonical on in every second round); distinct by (type, position, root, format, mechanism observed)")
+	sum := vh.NewSummary("24 types (a Selfer that re-enters the Decoder on a general-path map, Text / Binary marshalers whose form is empty-not-nil for the zero value, named scalar-kind types with Text / Binary / Selfer / all pairs, BytesExt/InterfaceExt, SelfExt, ext+Selfer, Selfer value/pointer receiver, Selfer+marshalers, Binary/Text/JSON marshaler pairs with value and pointer receivers, all three pairs, marshal-only, unmarshal-only, time.Time) x 12 positions (incl. a field of a small struct that is a map value / held by value in an interface{}) x root by value / by pointer x 5 formats x option vectors (Canonical on in every second round, TimeNotBuiltin in every third); distinct by (type, position, root, format, mechanism observed)")
 	cv := vh.NewCases(*cases, "From Coq Require Import List NArith Bool.\nFrom Verif Require Import Gen.Choice C17.Model C17.Corr.\nImport ListNotations.", "case", "mismatches", 60)
 	id := 0
 	for _, format := range vh.Formats {
@@ -513,6 +570,10 @@ func main() {
 				o["Canonical"] = true
 			} else {
 				delete(o, "Canonical")
+			}
+			// TimeNotBuiltin: time.Time is then a Binary/Text/JSON marshaler like any other (every third round)
+			if round%3 == 2 {
+				o["TimeNotBuiltin"] = true
 			}
 			for _, xt := range xtypes() {
 				h := newHandle(format, o)
@@ -572,7 +633,7 @@ func main() {
 							if !ok1 || !ok2 {
 								sum.FailC("positions", "several-hooks:"+cls, "more than one kind of custom hook ran for one value", cj)
 							} else {
-								cv.Add(fmt.Sprintf("mkcase %d %s %s %d %d", id, coqFlags(f, "enc_fn_checkExt"), coqFlags(f, "dec_fn_checkExt"), ec, dc))
+								cv.Add(fmt.Sprintf("mkcase %d %s %s %s %s %d %d", id, coqFlags(f, "enc_fn_checkExt"), coqFlags(f, "dec_fn_checkExt"), vh.CoqBool(f.EncBuiltin), vh.CoqBool(f.DecBuiltin), ec, dc))
 								sum.ModelCases++
 							}
 						}
